@@ -129,9 +129,16 @@ class PackCommitBuilder(VersionedFileCommitBuilder):
             lossy=lossy,
             owns_transaction=owns_transaction,
         )
-        self._file_graph = _vcsgraph.Graph(
-            repository._pack_collection.text_index.combined_index
-        )
+        if repository._fallback_repositories:
+            # Texts of a stacked repository may live in a fallback: the pack
+            # collection's own text index does not describe the whole
+            # per-file graph there, so heads() would keep candidates whose
+            # descendants it cannot see.
+            self._file_graph = repository.get_file_graph()
+        else:
+            self._file_graph = _vcsgraph.Graph(
+                repository._pack_collection.text_index.combined_index
+            )
 
     def _heads(self, file_id, revision_ids):
         keys = [(file_id, revision_id) for revision_id in revision_ids]
